@@ -97,11 +97,109 @@ def serialize_path_branch(ctx: Ctx):
     if not commits_in(q):
         holders = [c for c in ctx.helper_closure(q0)[1:] if commits_in(c)]
         if holders:
-            raise AnalysisError("the write-then-move commit lives in %s but the destination reaches it through another helper; "
-                                "cannot follow the path handling across these functions" % holders[0].rsplit(".", 1)[1])
+            # the destination reaches the holder through other helpers: `dest` is whatever the holder passes to the commit;
+            # C17.R1 follows it interprocedurally (derive_path)
+            q = holders[0]
+            c0 = commits_in(q)[0]
+            dest = c0.args[1].id if isinstance(c0.args[1], ast.Name) else dest0
     fi = ctx.fn(q)
     g = get_cfg(ctx, q)
     return q, fi, g, dest, commits_in(q)
+
+
+def derive_path(ctx: Ctx, entry_q, entry_dest, q, node, expr, bindings=None, depth=0):
+    """Where can the value of `expr` (evaluated at CFG node `node` of function q) come from?  Set of
+    (kind, detail): IDENTITY (the caller's destination itself), FILEURL (file: URL converted under an explicit scheme
+    test), NONE, URLPART (a component of urlparse), CONVERTED (url conversion without scheme test), OPAQUE."""
+    bindings = bindings or {}
+    if depth > 8:
+        return {("OPAQUE", "depth")}
+    fi = ctx.fn(q)
+    g = get_cfg(ctx, q)
+    if isinstance(expr, ast.Constant):
+        return {("NONE", "None")} if expr.value is None else {("OPAQUE", repr(expr.value))}
+    if isinstance(expr, ast.IfExp):
+        return derive_path(ctx, entry_q, entry_dest, q, node, expr.body, bindings, depth + 1) | derive_path(ctx, entry_q, entry_dest, q, node, expr.orelse, bindings, depth + 1)
+    if isinstance(expr, ast.Name):
+        out = set()
+        rd = reaching_defs(g, expr.id)[node.id]
+        for d in sorted(rd):
+            if d == -1:
+                if q == entry_q and expr.id == entry_dest:
+                    out.add(("IDENTITY", expr.id))
+                elif (q, expr.id) in bindings:
+                    cq, cnode, actual = bindings[(q, expr.id)]
+                    out |= derive_path(ctx, entry_q, entry_dest, cq, cnode, actual, bindings, depth + 1)
+                else:
+                    # follow every call site in the closure of the entry function
+                    found = False
+                    for cq in ctx.helper_closure(entry_q, depth=3):
+                        cf = ctx.fn(cq)
+                        for c in calls_in(cf.node):
+                            if call_name(c) == fi.name:
+                                ps = fi.params[1:] if (fi.cls and not fi.is_static) else fi.params
+                                actual = None
+                                if expr.id in ps and ps.index(expr.id) < len(c.args):
+                                    actual = c.args[ps.index(expr.id)]
+                                for k in c.keywords:
+                                    if k.arg == expr.id:
+                                        actual = k.value
+                                if actual is not None:
+                                    found = True
+                                    cg = get_cfg(ctx, cq)
+                                    out |= derive_path(ctx, entry_q, entry_dest, cq, node_of(cg, c), actual, bindings, depth + 1)
+                    if not found:
+                        out.add(("OPAQUE", "parameter %s of %s" % (expr.id, fi.name)))
+                continue
+            st = g.nodes[d].stmt
+            if isinstance(st, ast.Assign) and len(st.targets) == 1 and isinstance(st.targets[0], ast.Name):
+                out |= derive_path(ctx, entry_q, entry_dest, q, g.nodes[d], st.value, bindings, depth + 1)
+            elif isinstance(st, ast.Assign) and isinstance(st.value, ast.Call) and call_name(st.value) in ("urlparse", "urlsplit"):
+                out.add(("URLPART", norm(st)[:60]))
+            else:
+                out.add(("OPAQUE", norm(st)[:60]))
+        return out
+    if isinstance(expr, ast.Call):
+        name = call_name(expr)
+        if name in ("url2pathname", "unquote"):
+            dom = g.dominators(labels_excluded=("exc",))
+            tests = [g.nodes[i] for i in dom.get(node.id, set()) if g.nodes[i].kind == "test"]
+            ok = any("file" in norm(t.stmt.test) and "==" in norm(t.stmt.test) for t in tests)
+            return {("FILEURL" if ok else "CONVERTED", norm(expr)[:50])}
+        if name in ("fspath", "str") and expr.args:
+            return derive_path(ctx, entry_q, entry_dest, q, node, expr.args[0], bindings, depth + 1)
+        r = ctx.p.resolve_dotted(fi.module, expr.func) if dotted(expr.func) else None
+        hq = r[1] if r and r[0] == "func" else (ctx.p.lookup_method(fi.cls, expr.func.attr) if isinstance(expr.func, ast.Attribute) and norm(expr.func.value) in ("self", "cls") and fi.cls else None)
+        if hq and hq in ctx.p.functions:
+            hf = ctx.fn(hq)
+            hg = get_cfg(ctx, hq)
+            ps = hf.params[1:] if (hf.cls and not hf.is_static) else hf.params
+            nb = dict(bindings)
+            for i, a in enumerate(expr.args):
+                if i < len(ps):
+                    nb[(hq, ps[i])] = (q, node, a)
+            for k in expr.keywords:
+                if k.arg:
+                    nb[(hq, k.arg)] = (q, node, k.value)
+            out = set()
+            for n in walk_function(hf.node):
+                if isinstance(n, ast.Return):
+                    out |= derive_path(ctx, entry_q, entry_dest, hq, node_of(hg, n), n.value if n.value is not None else ast.Constant(value=None), nb, depth + 1)
+            return out or {("NONE", "no return")}
+        return {("OPAQUE", norm(expr)[:50])}
+    return {("OPAQUE", norm(expr)[:50])}
+
+
+def none_only_for_netloc(ctx: Ctx, q):
+    """Every `return None` of helper q is dominated by a test that mentions only `netloc`."""
+    g = get_cfg(ctx, q)
+    dom = g.dominators(labels_excluded=("exc",))
+    for n in g.nodes:
+        if isinstance(n.stmt, ast.Return) and (n.stmt.value is None or (isinstance(n.stmt.value, ast.Constant) and n.stmt.value.value is None)):
+            tests = [g.nodes[i] for i in dom.get(n.id, set()) if g.nodes[i].kind == "test"]
+            if not any({x.id for x in ast.walk(t.stmt.test) if isinstance(x, ast.Name)} <= {"netloc"} and any(isinstance(x, ast.Name) for x in ast.walk(t.stmt.test)) for t in tests):
+                return False
+    return True
 
 
 @rule("C17", "C17.R1", "the committed path is the caller's path (identity, or a file: URL converted under an explicit scheme test); a local name is never refused", 2,
@@ -114,6 +212,66 @@ def c17_r1(ctx: Ctx, rule):
         res.ob("(no reaching definitions to examine)", nontrivial=False)
         res.fail(rule.id, "no-commit", ctx.loc(q, fi.node), "ProvDocument.serialize no longer commits a finished temporary file to the destination (see C17.R3)",
                  "a failure while writing leaves a truncated destination")
+        return res
+    entry_q = DOC + ".serialize"
+    entry_dest = ctx.fn(entry_q).params[1]
+    if q != entry_q:
+        for c in commits:
+            kinds = derive_path(ctx, entry_q, entry_dest, q, node_of(g, c), c.args[1])
+            bad = [k for k in kinds if k[0] not in ("IDENTITY", "FILEURL", "NONE")]
+            res.ob("commit %s in %s: destination derives from %s" % (norm(c)[:40], fi.name, sorted(kinds)))
+            for k in bad:
+                res.fail(rule.id, "committed-path::%s" % k[1][:60], ctx.loc(q, c), "the destination of the commit can be %s (%s), which is not the caller's file name" % (k[0], k[1]),
+                         "serialize(destination='a#b.json') writes to 'a'; 'x?y' to 'x'")
+        # refusal: the entry function may only skip the holder when the path helper said None, and that only for a netloc
+        ef = ctx.fn(entry_q)
+        eg = get_cfg(ctx, entry_q)
+        hold_nodes = {n.id for n in eg.nodes if n.stmt is not None and any(isinstance(x, ast.Call) and call_name(x) == fi.name for e in cfgmod.header_exprs(n.stmt) for x in ast.walk(e))}
+        eb = [n for n in eg.nodes if n.kind == "test" and "hasattr" in norm(n.stmt.test) and "write" in norm(n.stmt.test)]
+        starts = [m for n in eb for m, lab in n.succ if lab == "false"] or [eg.entry]
+
+        def refusal_ok(a, b, lab):
+            if a.kind == "test" and lab == "true":
+                t = a.stmt.test
+                names = {x.id for x in ast.walk(t) if isinstance(x, ast.Name)}
+                if names and names <= {"netloc"}:
+                    return False
+                if isinstance(t, ast.Compare) and isinstance(t.ops[0], ast.Is) and isinstance(t.comparators[0], ast.Constant) and t.comparators[0].value is None and isinstance(t.left, ast.Name):
+                    d = resolve_local(ef.node, t.left)
+                    if isinstance(d, ast.Call) and isinstance(d.func, ast.Name):
+                        r = ctx.p.resolve_name(ef.module, d.func.id)
+                        if r and r[0] == "func" and none_only_for_netloc(ctx, r[1]):
+                            return False
+            return True
+
+        # inside the holder: an early return before the commit only for a network location
+        commit_ids_h = {node_of(g, c).id for c in commits}
+
+        def only_netloc(a, b, lab):
+            if a.kind == "test" and lab == "true":
+                names = {x.id for x in ast.walk(a.stmt.test) if isinstance(x, ast.Name)}
+                if names and names <= {"netloc"} and any(isinstance(x, ast.Return) for s0 in a.stmt.body for x in ast.walk(s0)):
+                    return False
+            return True
+
+        ph = g.find_path(g.entry, g.exit, avoid=lambda n: n.id in commit_ids_h, labels_excluded=("exc", "raise"), edge_ok=only_netloc)
+        res.ob("%s reaches its commit on every path except the netloc refusal: %s" % (fi.name, ph is None))
+        if ph is not None:
+            tests = [n for n, _ in ph if n.kind == "test"]
+            res.fail(rule.id, "local-name-refused::%s" % (norm(tests[-1].stmt.test)[:60] if tests else "?"), ctx.loc(q, tests[-1].stmt if tests else fi.node),
+                     "%s can return without writing for a destination that is not a network location" % fi.name,
+                     "a plain file name that urlparse gives a scheme ('prov:bundle1.out') is silently not written")
+        for st in starts:
+            if st.id in hold_nodes:
+                res.ob("the path branch of serialize hands the destination to %s unconditionally" % fi.name)
+                continue
+            p = eg.find_path(st, eg.exit, avoid=lambda n: n.id in hold_nodes, labels_excluded=("exc", "raise"), edge_ok=refusal_ok)
+            res.ob("every local destination reaches the commit (only a non-empty netloc is refused): %s" % (p is None))
+            if p is not None:
+                tests = [n for n, _ in p if n.kind == "test"]
+                res.fail(rule.id, "local-name-refused::%s" % (norm(tests[-1].stmt.test)[:60] if tests else "?"), ctx.loc(entry_q, tests[-1].stmt if tests else ef.node),
+                         "serialize(path) can return without writing for a destination that is not a network location",
+                         "a plain file name that urlparse gives a scheme ('prov:bundle1.out') is silently not written")
         return res
     for c in commits:
         cn = node_of(g, c)
